@@ -730,7 +730,7 @@ class file_archive(archive):
         elif not serialized and not filename.endswith(('.py','.pyc','.pyo','.pyd')): filename = filename+'.py'
         # set state
         self.__state__ = {
-            'id': filename,
+            'id': os.path.abspath(filename),
             'serialized': serialized,
             'protocol': protocol
         } #XXX: add 'cloud' option?
